@@ -484,6 +484,10 @@ func checkC10(c *hx.Ctx) {
 			walk(nil, v.req, 3)
 			for _, path := range paths {
 				vals := append(append([]interface{}{}, mutVals...), lookup(others[vi].req, path))
+				if orig, isStr := lookup(v.req, path).(string); isStr && orig != "" {
+					// encodings of the same bytes that are not the canonical unpadded base64url text
+					vals = append(vals, orig+"=", orig+"==", orig+"\n", orig[:1]+"\r\n"+orig[1:], " "+orig, strings.Replace(strings.Replace(orig, "-", "+", -1), "_", "/", -1))
+				}
 				for _, mv := range vals {
 					t := ref.CopyTree(v.req).(map[string]interface{})
 					setPath(t, path, mv)
